@@ -179,6 +179,41 @@ Definition string_append (h : heap) (ss : list str) : heap * str :=
   let b := overwrite b p [0] in
   (h ++ [b], mkstr (length h) 0 len false).
 
+(** sexp_string_concatenate_op (sexp.c:1525-1552) with its separator argument ([None] = #f or any
+    non-string): string-join / string-concatenate.
+      for (ls...) len += size(car ls), i++
+      if (i > 0 && stringp(sep) && (sep_len = sexp_string_size(sep)) > 0) { csep = data(sep); len += sep_len*(i-1); }
+      res = make_string(len); p = data(res);
+      for (ls...) { memcpy(p, data(car ls), size); p += size;
+                    if (sep_len && pairp(cdr ls)) { memcpy(p, csep, sep_len); p += sep_len; } }
+      *p = 0
+    [sep_len] is a BYTE count (sexp_string_size), used both for sizing and for every copy. *)
+Fixpoint concat_loop (h : heap) (ss : list str) (csep : list Z) (sep_len : nat) (b : list Z) (p : nat)
+  : list Z * nat :=
+  match ss with
+  | [] => (b, p)
+  | s :: rest =>
+      let b := memcpy b p (sdata h s) (ssize s) in
+      let p := (p + ssize s)%nat in
+      match rest with
+      | [] => concat_loop h rest csep sep_len b p
+      | _ :: _ =>
+          if (0 <? sep_len)%nat
+          then concat_loop h rest csep sep_len (memcpy b p csep sep_len) (p + sep_len)%nat
+          else concat_loop h rest csep sep_len b p
+      end
+  end.
+
+Definition string_concatenate (h : heap) (ss : list str) (sep : option str) : heap * str :=
+  let len := fold_left (fun a s => (a + ssize s)%nat) ss O in
+  let i := length ss in
+  let sep_len := match sep with Some sp => if (0 <? i)%nat then ssize sp else O | None => O end in
+  let csep := match sep with Some sp => sdata h sp | None => [] end in
+  let len := (len + sep_len * (i - 1))%nat in
+  let '(b, p) := concat_loop h ss csep sep_len (make_bytes len) O in
+  let b := overwrite b p [0] in
+  (h ++ [b], mkstr (length h) 0 len false).
+
 (** sexp_make_string_op (sexp.c:1401-1438): ASCII -> memset; otherwise clen*len bytes, one
     sexp_utf8_encode_char per position *)
 Fixpoint fill_loop (b : list Z) (enc : list Z) (clen : nat) (j n : nat) : list Z :=
